@@ -322,7 +322,10 @@ fn h2_box(prop: &str, thorough: bool) -> Vec<(Body, usize)> {
     // five sets of sizes 2,1,1,1,2: with queue 1 one data set carries 2, then 1, then 2 records, so an
     // output vector that is cut down instead of kept would have to re-create slots (C16)
     let fa_updown: (Fmt, &[u8], usize, usize) = (Fmt::Fasta, b">a\nA\n>b\nC\n>c\nACGTAC\n>d\nACGTAC\n>e\nACGTAC\n>f\nA\n>g\nC\n", 12, 5);
-    let mut inputs = vec![fa2, fa3, fa3b, fq2, fq3, fa_grow, fq_grow, fa_updown];
+    // set sizes 3,1,1,1 (capacity 16): a data set that carried three records later carries one, so
+    // output slots BEYOND the current set exist; they must be left alone, not re-created (C16)
+    let fa_shrink: (Fmt, &[u8], usize, usize) = (Fmt::Fasta, b">a\nA\n>b\nC\n>c\nG\n>d\nACGTACGTAC\n>e\nACGTACGTAC\n>f\nACGTACGTAC\n", 16, 4);
+    let mut inputs = vec![fa2, fa3, fa3b, fq2, fq3, fa_grow, fq_grow, fa_updown, fa_shrink];
     if prop == "C16" {
         // buffers beyond the default 64 KiB: a reader created with a larger capacity (two sets of
         // 66 000 bytes), and a default-sized reader that has to grow for one long record; the data
@@ -345,7 +348,7 @@ fn h2_box(prop: &str, thorough: bool) -> Vec<(Body, usize)> {
         for &t in &[1u32, 2] {
             for &q in if thorough { &[1usize, 2, 3][..] } else { &[1usize, 2][..] } {
                 let mut bound = bound_for(t, q, nsets, thorough).min(if t == 1 { 2 } else { 1 });
-                if nsets >= 5 {
+                if nsets >= 4 {
                     if !(prop == "C16" || prop == "C07") || q > 2 {
                         continue;
                     }
